@@ -103,11 +103,15 @@ IntendedNode(app) ==
 
 \* documented constructor normalisations that return an argument / a constant
 \* instead of building the node
+\* (since fix 43 only where the lone argument is one the operator accepts: And(x) for an Int x is an ill-typed
+\* application although the node that would be returned, x itself, is a well-typed term)
 NormalisedAway(app) ==
-    \/ app.op \in {"and", "or", "plus", "times"} /\ Len(app.args) <= 1
+    \/ app.op \in {"and", "or", "plus", "times"} /\ Len(app.args) = 0
+    \/ app.op \in {"and", "or"} /\ Len(app.args) = 1 /\ TypeOf(app.args[1]) = TBool
+    \/ app.op \in {"plus", "times"} /\ Len(app.args) = 1 /\ TypeOf(app.args[1]) \in {TInt, TReal}
     \/ app.op = "toreal" /\ Len(app.args) = 1 /\ TyF(app.args[1]) = TReal
-    \/ app.op = "function" /\ Len(app.args) = 0
-    \/ app.op \in {"forall", "exists"} /\ app.bv = <<>>
+    \/ app.op = "function" /\ Len(app.args) = 0 /\ (app.ty.k # "Fun" \/ Len(app.ty.a) <= 1)
+    \/ app.op \in {"forall", "exists"} /\ app.bv = <<>> /\ Len(app.args) = 1 /\ TypeOf(app.args[1]) = TBool
 
 (* create(app) -> res \in {"ok","error"}; out / rty = result and its reported sort *)
 CreateContract(e) ==
